@@ -360,6 +360,8 @@ def applyCalls (d : DS) (keys : Array Bytes) (calls : String) : Builder :=
     | ["seq", n] => b.setSeq (n.toNat?.getD 0)
     | ["raw", k, v] => b.addRaw (unhex k) (unhex v)
     | ["enc", k, v] => b.addRaw (unhex k) (unhex v)
+    | ["enr", k, v] => b.addRaw (unhex k) (unhex v)     -- the value is a record (`Enr: Encodable`)
+    | ["enrs", k, v] => b.addRaw (unhex k) (unhex v)    -- a `Vec<Enr>`
     | ["bytes", k, v] => b.addValue (unhex k) (.bytes (unhex v))
     | ["uint", k, v] => b.addValue (unhex k) (.uint (v.toNat?.getD 0))
     | ["ip", v] => let ip := unhex v; b.addValue (if ip.length = 4 then kIp else kIp6) (.bytes ip)
@@ -381,7 +383,7 @@ def parseOp (d : DS) (t : Toks) (keys : Array Bytes) : Option (Op d.S) :=
   | "insert" =>
     -- `insert<T>` stores whatever `T::encode` writes: for a hand-written `Encodable` that is an
     -- arbitrary byte string, i.e. `insert_raw_rlp` of those bytes
-    if g "vt" == "rawenc" then some (.insertRaw (unhex (g "key")) (unhex (g "val")))
+    if g "vt" == "rawenc" || g "vt" == "enr" || g "vt" == "enrs" then some (.insertRaw (unhex (g "key")) (unhex (g "val")))
     else if g "vt" == "phantom" then some (.insertRaw (unhex (g "key")) [])
     else
     let v : Val := match g "vt" with
@@ -872,6 +874,7 @@ def handleCmp (s : St) (t : Toks) (o : Toks) (other : Obs) : St :=
     let s := s.cmp "cmp.pairseq" (bit (a.content == b.content)) (tget o "pairseq")
     let eq := tget o "eq" == "1"
     let s := if tget o "eq" == tget o "eqr" then s.chk else s.prop "C15" "eq_symmetric" ""
+    let s := if thas o "ne" && tget o "ne" == tget o "eq" then s.prop "C15" "ne_is_the_negation_of_eq" "" else s.chk
     let s := if tget o "cc" == tget o "ccr" then s.chk else s.prop "C15" "compare_content_symmetric" ""
     let s := if eq && tget o "heq" != "1" then s.prop "C15" "eq_implies_hash_eq" "" else s.chk
     let s := if eq && tget o "pairseq" != "1" then s.prop "C15" "eq_implies_same_pairs" "" else s.chk
@@ -881,6 +884,46 @@ def handleCmp (s : St) (t : Toks) (o : Toks) (other : Obs) : St :=
     let same := cur.seq == other.seq && cur.pairs == other.pairs
     let s := if (tget o "cc" == "1") == same then s.chk else s.prop "C15" "compare_content_iff_same_seq_and_pairs" s!"cc={tget o "cc"}"
     s
+
+/-! ### records accepted by deserialisers other than serde_json's -/
+
+/-- `alt` line: a deserialiser (byte string, byte sequence, string, wrapped; human-readable or not)
+    handed the bytes `in` (or a text made from them) to the record type.  Acceptance is not
+    required on any route; an accepted record must be authentic (C01) and well-formed (C02), and
+    must be the record the plain decoder / text parser reads from the same data. -/
+def handleAlt (s : St) (t : Toks) : St :=
+  let route := tget t "route"
+  if route == "all" then
+    let s := s.cov s!"alt/{tget t "scheme"}/tried{tget t "tried"}/ok{tget t "ok"}"
+    if tget t "panics" != "0" then s.prop "C03" "deserialise_no_panic" s!"in={tget t "in"}" else s.chk
+  else
+  match mkDS (tget t "scheme") with
+  | none => s
+  | some d =>
+    let S := d.S
+    let ob := parseObs t
+    let r := ob.toRec
+    let inp := unhex (tget t "in")
+    let s := s.cov s!"alt/{d.name}/{route}/hr{tget t "hr"}/ok"
+    match S.enrToPublic r.content with
+    | .error _ => (s.prop "C01" "accepted_record_has_key" s!"route={route} in={hex inp}")
+    | .ok pk =>
+      let (s, v) := s.verifyCached S d.toB pk r.rlpContent r.sig
+      let s := if v then s.chk
+        else (s.prop "C01" "accepted_record_is_authentic" s!"route={route} hr={tget t "hr"} in={hex inp}").prop "C02" "input_without_a_valid_signature_rejected" s!"route={route} in={hex inp}"
+      let S' := @memo S d.deq pk r.rlpContent r.sig v
+      -- the record must be readable again, and it must be what the data says
+      let s := match decode S' r.encode with
+        | .ok (r2, rest) => if r2 == r && rest.isEmpty then s.chk else s.prop "C04" "redecode_identical" s!"route={route}"
+        | .error e => s.prop "C02" "accepted_record_is_wellformed" s!"route={route} err={rlpErrStr e} in={hex inp}"
+      let fromBytes := match decode S' inp with
+        | .ok (r2, rest) => rest.isEmpty && r2 == r
+        | .error _ => false
+      let fromText := match parseText S' inp with
+        | some r2 => r2 == r
+        | none => false
+      if fromBytes || fromText then s.chk
+      else s.prop "C01" "accepted_record_is_the_one_in_the_input" s!"route={route} hr={tget t "hr"} in={hex inp}"
 
 /-! ### NodeId / CombinedKey lines -/
 
@@ -1037,6 +1080,11 @@ def finishPending (s : St) (recs : List Obs) (acc : Option Toks) : St :=
             | some st, some now =>
               if obsEq st now then s.chk else s.prop "C15" "clone_is_identical" s!"slot={tget t "slot"}"
             | _, _ => s
+          -- and it is a record like any other the library hands out
+          let s := match rec1 with
+            | some now => (checkRecord d s now "step").1
+            | none => s
+          let s := if tget o "res" == "panic" then s.prop "C03" "clone_no_panic" "" else s
           { s with cur := match rec1 with
                           | some now => some now
                           | none => slot }
@@ -1112,6 +1160,9 @@ def feed (a : Acc) (line : String) : Acc :=
     let a := flushAcc a
     let a := { a with st := { a.st with nInputs := a.st.nInputs + 1 } }
     { a with st := handleNid { a.st with ctx := s!"nid/{tget t "op"}" } t }
+  | "alt" =>
+    let a := flushAcc a
+    { a with st := handleAlt { (flushGroup a.st) with ctx := s!"alt/{tget t "scheme"}/{tget t "route"}" } t }
   | "ck" =>
     let a := flushAcc a
     let a := { a with st := { a.st with nInputs := a.st.nInputs + 1 } }
